@@ -514,8 +514,14 @@ fn main() {
     phase_t.push(("baselines".into(), t0.elapsed().as_secs_f64()));
     // ---- phase (i): hasher seeds, in-process, in parallel (this is also a thread exercise)
     let mut jobs: Vec<(usize, usize, bool)> = vec![];
+    // thorough: 200 seeds for every generated program, the must-have headers and a third of the
+    // repository headers (which third rotates with the run seed), 40 seeds for the others
+    let mut cases_full_seeds = 0usize;
     for &ci in &inproc {
-        for s in 0..n_seeds {
+        let full = !thorough || cases[ci].text.is_some() || must.contains(&cases[ci].name.as_str())
+            || (fnv(&cases[ci].name) ^ a.seed) % 3 == 0;
+        if full { cases_full_seeds += 1; }
+        for s in 0..(if full { n_seeds } else { n_seeds / 5 }) {
             let seed = (r.next() as usize) | 1;
             jobs.push((ci, seed, s % 2 == 0));
         }
@@ -739,6 +745,8 @@ fn main() {
     kv(&mut j, "baseline_outcomes", format!("{{{}}}", outcome_hist.iter().map(|(k, v)| format!("{}:{}", json_str(k), v)).collect::<Vec<_>>().join(",")));
     kv(&mut j, "callback_events_in_baselines", cb_events.to_string());
     kv(&mut j, "hash_seeds_per_case", n_seeds.to_string());
+    kv(&mut j, "cases_with_all_seeds", cases_full_seeds.to_string());
+    kv(&mut j, "cases_with_a_fifth_of_the_seeds", (inproc.len() - cases_full_seeds).to_string());
     kv(&mut j, "hash_seed_runs", jobs.len().to_string());
     kv(&mut j, "hash_seed_differences", seed_diffs.to_string());
     kv(&mut j, "seed_hook_sensitivity_probe", format!("{{\"input\":\"void conflicted(void); with three --override-abi sets of different ABIs matching it\",\"distinct_outputs_over_40_seeds\":{},\"unseeded_runs_identical\":{}}}", probe_outs.len(), probe_unseeded.windows(2).all(|w| w[0] == w[1])));
